@@ -150,6 +150,8 @@ def run(chk, tier):
         chk.floor("R4.1", n, want, "TypeInfo impls in config %s: 12 primitives + array + 21 tuples + 10 NonZero + 21 others%s"
                   % (cfg, " + 3 bitvec" if "bit-vec" in feats else ""))
         sibling(chk, prog, cfg)
+        if tier == "thorough":
+            encode_siblings(chk, prog, cfg)
         # a description is only reachable under its own id if identities are coherent
         ci.check_identities(chk, prog, cfg)
     chk.trusted += ["rustc front end / MIR", "parity-scale-codec leaf encodings follow the SCALE specification",
@@ -161,6 +163,48 @@ WRAPPER_EXPECT = {
     # codec WrapperTypeEncode self types -> scale-info must forward (transparent)
     "alloc::boxed::Box", "alloc::rc::Rc", "alloc::sync::Arc", "alloc::vec::Vec", "alloc::string::String",
 }
+
+
+def encode_siblings(chk, prog, cfg):
+    """thorough: every described built-in has a codec Encode impl of the same head, except the documented exceptions"""
+    chk.rule("R4.4", "every built-in type with a TypeInfo impl also has a parity-scale-codec Encode impl (same type constructor, same tuple arity), "
+             "except the documented exceptions: char, 19- and 20-tuples, and the bit-order markers Lsb0/Msb0")
+    fi = {f["trait"]: f["impls"] for f in prog.data.get("foreign_impls", [])}
+    enc = None
+    for tr, imps in fi.items():
+        if tr.endswith("codec::Encode"):
+            enc = imps
+    if enc is None:
+        chk.anchor_missing("codec Encode impl list")
+        return
+    heads = set()
+    blanket_wrapper = False
+    for e in enc:
+        t = prog.ty(e["self_ty"])
+        if t["k"] == "tuple":
+            heads.add(("tuple", len(t["ts"])))
+        elif t["k"] == "param":
+            blanket_wrapper = True   # impl<T: WrapperTypeEncode> Encode for T
+        else:
+            heads.add((t.get("d") or t["k"], t["s"] if t["k"] in ("int", "uint", "bool", "char", "str") else None))
+    wte = [prog.ty(w["self_ty"]) for tr, imps in fi.items() if tr.endswith("WrapperTypeEncode") for w in imps]
+    wrapper_heads = {(t.get("d") or t["k"]) for t in wte}
+    n = 0
+    for imp in prog.impls_of(TI):
+        st = prog.ty(imp["self_ty"])
+        if st["k"] == "tuple":
+            key = ("tuple", len(st["ts"]))
+            has = key in heads
+            exception = len(st["ts"]) in (19, 20)
+        else:
+            head = st.get("d") or st["k"]
+            has = (head, st["s"] if st["k"] in ("int", "uint", "bool", "char", "str") else None) in heads or (blanket_wrapper and head in wrapper_heads)
+            # BitVec's Encode impl lives behind the codec's own `bit-vec` feature, which scale-info does not enable: not visible here
+            exception = st["k"] == "char" or head in ("bitvec::order::Lsb0", "bitvec::order::Msb0", "bitvec::vec::BitVec")
+        n += 1
+        chk.expect(has != exception, "R4.4", "codec-encode:" + st["s"], imp["loc"],
+                   "codec Encode impl: %s; documented exception: %s" % (has, exception), cfg)
+    chk.floor("R4.4", n, 65, "TypeInfo impls")
 
 
 def sibling(chk, prog, cfg):
